@@ -2,6 +2,7 @@
 From Coq Require Import List String ZArith Bool Ascii Arith Lia.
 From Cog Require Import Model.IR Model.Json Model.GoSemBase Model.GoSemValidate Model.Src Model.FrontEnd Model.FrontEndSpec.
 From Cog Require Import Proofs.FrontEndLemmas Proofs.FrontEndFields.
+Import FEDec.
 Import ListNotations.
 Local Open Scope list_scope.
 Local Open Scope string_scope.
@@ -118,31 +119,11 @@ Proof.
   destruct j; reflexivity.
 Qed.
 
-(* ---------- printing then parsing a small bound gives the bound back ---------- *)
-Definition rt_ok (m e : Z) : bool :=
-  match parse_dec (dec_string m e) with Some (a, b) => (Z.eqb a m && Z.eqb b e)%bool | None => false end.
-Definition zrange (lo : Z) (cnt : nat) : list Z := map (fun i => (lo + Z.of_nat i)%Z) (seq 0 cnt).
-Lemma zrange_in lo cnt z : (lo <= z < lo + Z.of_nat cnt)%Z -> In z (zrange lo cnt).
-Proof.
-  intro H. unfold zrange. apply in_map_iff. exists (Z.to_nat (z - lo)). split.
-  - rewrite Z2Nat.id by lia. lia.
-  - apply in_seq. lia.
-Qed.
-Lemma rt_all : forallb (fun m => forallb (fun e => rt_ok m e) (zrange (-3) 4)) (zrange (-10000) (Z.to_nat 20001)) = true.
-Proof. vm_compute. reflexivity. Qed.
+(* ---------- printing then parsing a bound: FEDec.dec_roundtrip (by value), exact for exponents <= 0 ---------- *)
 Lemma roundtrip_small p : bound_small p = true -> parse_dec (dec_string (fst p) (snd p)) = Some p.
 Proof.
   destruct p as [m e]. unfold bound_small. cbn [fst snd]. intro H.
-  apply andb_true_iff in H. destruct H as [H H4]. apply andb_true_iff in H. destruct H as [H H3].
-  apply andb_true_iff in H. destruct H as [H1 H2].
-  apply Z.leb_le in H1, H2, H3, H4.
-  pose proof rt_all as A. rewrite forallb_forall in A.
-  assert (Im : In m (zrange (-10000) (Z.to_nat 20001))) by (apply zrange_in; lia).
-  specialize (A m Im). rewrite forallb_forall in A.
-  assert (Ie : In e (zrange (-3) 4)) by (apply zrange_in; lia).
-  specialize (A e Ie). unfold rt_ok in A.
-  destruct (parse_dec (dec_string m e)) as [[a b]|]; [|discriminate].
-  apply andb_true_iff in A. destruct A as [A1 A2]. apply Z.eqb_eq in A1, A2. subst. reflexivity.
+  apply andb_true_iff in H. destruct H as [_ H4]. apply Z.leb_le in H4. apply dec_roundtrip_nonpos. exact H4.
 Qed.
 
 (* ---------- constraints ---------- *)
@@ -156,20 +137,32 @@ Lemma cstr_num op a b m e : parse_dec (dec_string a b) = Some (a, b) ->
    else false).
 Proof. intro H. unfold cstr_holds_json, cstr, dflo. cbn [c_args c_op dyn_num]. rewrite H. reflexivity. Qed.
 
-Lemma bounds_agree ge gt le lt m e :
-  obound_small ge = true -> obound_small gt = true -> obound_small le = true -> obound_small lt = true ->
+Lemma cstr_num_val op a b m e :
+  cstr_holds_json (cstr op (dflo a b)) (JNum m e) =
+  (let c := dec_compare (m, e) (a, b) in
+   if seqb op ">=" then match c with Lt => false | _ => true end
+   else if seqb op ">" then match c with Gt => true | _ => false end
+   else if seqb op "<=" then match c with Gt => false | _ => true end
+   else if seqb op "<" then match c with Lt => true | _ => false end
+   else false).
+Proof.
+  destruct (dec_roundtrip a b) as [p [H1 H2]].
+  unfold cstr_holds_json, cstr, dflo. cbn [c_args c_op dyn_num]. rewrite H1. cbv zeta. rewrite H2. reflexivity.
+Qed.
+
+Lemma bounds_agree_val ge gt le lt m e :
   forallb (fun c => cstr_holds_json c (JNum m e)) (js_bounds ge gt le lt) = bounds_ok ge gt le lt (m, e).
 Proof.
-  intros H1 H2 H3 H4. unfold js_bounds, bounds_ok, opt_ok, opt_list.
+  unfold js_bounds, bounds_ok, opt_ok, opt_list.
   destruct ge as [[a1 b1]|], gt as [[a2 b2]|], le as [[a3 b3]|], lt as [[a4 b4]|];
-    cbn [obound_small] in *; cbn [app forallb fst snd];
-    try (rewrite (cstr_num ">=" a1 b1) by (apply (roundtrip_small (a1, b1)); assumption));
-    try (rewrite (cstr_num ">" a2 b2) by (apply (roundtrip_small (a2, b2)); assumption));
-    try (rewrite (cstr_num "<=" a3 b3) by (apply (roundtrip_small (a3, b3)); assumption));
-    try (rewrite (cstr_num "<" a4 b4) by (apply (roundtrip_small (a4, b4)); assumption));
+    cbn [app forallb fst snd]; rewrite ?cstr_num_val;
     cbv zeta; cbn [seqb String.eqb Ascii.eqb Bool.eqb];
     repeat match goal with |- context [dec_compare ?x ?y] => destruct (dec_compare x y) end; reflexivity.
 Qed.
+Lemma bounds_agree ge gt le lt m e :
+  obound_small ge = true -> obound_small gt = true -> obound_small le = true -> obound_small lt = true ->
+  forallb (fun c => cstr_holds_json c (JNum m e)) (js_bounds ge gt le lt) = bounds_ok ge gt le lt (m, e).
+Proof. intros _ _ _ _. apply bounds_agree_val. Qed.
 
 Lemma dec_compare_int a b : dec_compare (a, 0%Z) (b, 0%Z) = Z.compare a b.
 Proof. unfold dec_compare. simpl. rewrite !Z.mul_1_r. reflexivity. Qed.
@@ -213,6 +206,19 @@ Proof.
   - rewrite json_eq_str. reflexivity.
 Qed.
 
+Lemma json_eq_num_val m e j g : (0 <= e)%Z -> json_eq (JNum m e) j = const_matches (DInt g (m * 10 ^ e)) j.
+Proof.
+  intro H. destruct j; unfold json_eq; simpl; try (destruct (num_norm m e); reflexivity).
+  unfold num_eqb. rewrite (num_norm_value m e H). destruct (num_norm m e), (num_norm m0 e0). reflexivity.
+Qed.
+Lemma const_agree_val ctx v j : json_scalar_const v = true -> json_eq v j = alt_check ctx j (js_const v).
+Proof.
+  destruct v; simpl; intros H1; try discriminate.
+  - rewrite json_eq_bool. reflexivity.
+  - apply Z.leb_le in H1. rewrite (json_eq_num_val m e j "int64" H1). reflexivity.
+  - rewrite json_eq_str. reflexivity.
+Qed.
+
 Definition enum_val_ok (v : json) : bool := match v with JStr _ => true | JNum _ e => Z.leb 0 e | _ => false end.
 Lemma enum_ok_all vals : enum_ok vals = true -> forall v, In v vals -> enum_val_ok v = true.
 Proof.
@@ -241,9 +247,22 @@ Proof.
   - rewrite forallb_forall in H2. apply H2. exact I.
 Qed.
 
+Lemma enum_member_agree_val et v j : enum_val_ok v = true ->
+  const_matches (ev_value (js_enum_member et v)) j = json_eq v j.
+Proof.
+  destruct v; simpl; intros H1; try discriminate.
+  - apply Z.leb_le in H1. rewrite (json_eq_num_val m e j "int64" H1). reflexivity.
+  - rewrite json_eq_str. reflexivity.
+Qed.
+Lemma enum_agree_val ctx vals j : enum_ok vals = true -> in_list j vals = alt_check ctx j (js_enum vals).
+Proof.
+  intros H1. unfold js_enum, in_list. cbn [alt_check]. rewrite existsb_map.
+  apply existsb_ext_in. intros v I. symmetry. apply enum_member_agree_val. apply (enum_ok_all vals H1 v I).
+Qed.
+
 (* ---------- the types inside a well-formed schema ---------- *)
 Definition good (s : src_schema) (t : src_ty) : Prop :=
-  js_supported t = true /\ ty_wf (src_defs s) t = true /\ no_constrained_typearray t = true /\ ty_small t = true /\
+  js_supported t = true /\ ty_wf (src_defs s) t = true /\ no_constrained_typearray t = true /\
   forallb (fun n => str_in n (map fst (src_defs s))) (refs_of t) = true.
 Definition nonref (t : src_ty) : bool := match t with SRef _ => false | _ => true end.
 
@@ -251,8 +270,6 @@ Section Ctx.
   Variable s : src_schema.
   Hypothesis W : src_wf s = true.
   Hypothesis NC : schema_no_constrained_typearray s = true.
-  Hypothesis SM : schema_bounds_small s = true.
-  Hypothesis AR : schema_aliases_resolve s = true.
   Local Notation defs := (src_defs s).
   Local Notation pkg := (src_pkg s).
   Local Notation ctx := (parse_ctx s).
@@ -261,10 +278,9 @@ Section Ctx.
   Lemma good_def k t : In (k, t) defs -> good s t.
   Proof.
     intro I. destruct (src_wf_parts s W) as [_ [_ ALL]]. destruct (ALL k t I) as [A [B [_ D]]].
-    unfold schema_no_constrained_typearray in NC. unfold schema_bounds_small in SM.
-    rewrite forallb_forall in NC, SM. repeat split; auto.
-    - apply (NC _ I).
-    - apply (SM _ I).
+    unfold schema_no_constrained_typearray in NC.
+    rewrite forallb_forall in NC. repeat split; auto.
+    apply (NC _ I).
   Qed.
 
   Lemma locate_ok m t : src_lookup defs m = Some t -> locate_object ctx pkg m = Some (obj_of pkg m t).
@@ -310,13 +326,107 @@ Section Ctx.
       intro F. cbn [plus js_ty]. rewrite alts_ref. rewrite (locate_ok name t' L). cbn [obj_of o_type]. apply K2.
   Qed.
 
-  Lemma resolve_total t : good s t -> exists rt, src_resolve defs fuel t = Some rt.
+  (* ---------- alias cycles: src_resolve fails within its fuel iff it fails with every fuel (pigeonhole on the names
+     visited), and then the IR side has no alternative at all ---------- *)
+  Fixpoint chain (F : nat) (t : src_ty) : list string :=
+    match F with
+    | O => []
+    | S F' => match t with
+              | SRef m => match src_lookup defs m with Some t' => m :: chain F' t' | None => [] end
+              | _ => []
+              end
+    end.
+  Lemma chain_nonref F t : nonref t = true -> chain F t = [].
+  Proof. destruct F, t; simpl; intro H; try reflexivity; discriminate. Qed.
+
+  Lemma chain_some : forall F t rt, src_resolve defs F t = Some rt ->
+    src_resolve defs (S (List.length (chain F t))) t = Some rt.
   Proof.
-    intro G. destruct t; try (eexists; reflexivity).
-    destruct G as [_ [_ [_ [_ G]]]]. cbn [refs_of forallb] in G. rewrite andb_true_r in G.
-    apply str_in_In in G. apply in_map_iff in G. destruct G as [[k t] [E I]]. simpl in E. subst k.
-    unfold schema_aliases_resolve in AR. rewrite forallb_forall in AR. specialize (AR _ I). cbn [fst] in AR.
-    destruct (src_resolve defs fuel (SRef name)) as [rt|]; [|discriminate]. exists rt. reflexivity.
+    induction F as [|F IH]; intros t rt R.
+    - destruct t; simpl in R; try discriminate; inversion R; subst; reflexivity.
+    - destruct t; try (simpl in R; inversion R; subst; reflexivity).
+      simpl in R. destruct (src_lookup defs name) as [t'|] eqn:L; [|discriminate].
+      cbn [chain]. rewrite L. cbn [List.length src_resolve]. rewrite L. apply IH. exact R.
+  Qed.
+
+  Lemma chain_indep : forall F F1 t rt rt1, src_resolve defs F t = Some rt -> src_resolve defs F1 t = Some rt1 ->
+    chain F t = chain F1 t.
+  Proof.
+    induction F as [|F IH]; intros F1 t rt rt1 R R1.
+    - destruct t; simpl in R; try discriminate; rewrite !chain_nonref by reflexivity; reflexivity.
+    - destruct t; try (rewrite !chain_nonref by reflexivity; reflexivity).
+      simpl in R. destruct (src_lookup defs name) as [t'|] eqn:L; [|discriminate].
+      destruct F1 as [|F1]; [simpl in R1; discriminate|]. simpl in R1. rewrite L in R1.
+      cbn [chain]. rewrite L. f_equal. apply (IH F1 t' rt rt1); assumption.
+  Qed.
+
+  Lemma chain_suffix : forall F t rt m, In m (chain F t) -> src_resolve defs F t = Some rt ->
+    exists F1, src_resolve defs F1 (SRef m) = Some rt /\ (List.length (chain F1 (SRef m)) <= List.length (chain F t))%nat.
+  Proof.
+    induction F as [|F IH]; intros t rt m I R; [destruct I|].
+    destruct t; try (destruct I; fail).
+    simpl in R. cbn [chain] in *. destruct (src_lookup defs name) as [t'|] eqn:L; [|destruct I].
+    destruct I as [I|I].
+    - subst m. exists (S F). split.
+      + simpl. rewrite L. exact R.
+      + cbn [chain]. rewrite L. apply le_n.
+    - destruct (IH t' rt m I R) as [F1 [R1 LE]]. exists F1. split; auto. cbn [List.length]. lia.
+  Qed.
+
+  Lemma chain_nodup : forall F t rt, src_resolve defs F t = Some rt -> NoDup (chain F t).
+  Proof.
+    induction F as [|F IH]; intros t rt R; [constructor|].
+    destruct t; try (rewrite chain_nonref by reflexivity; constructor).
+    simpl in R. destruct (src_lookup defs name) as [t'|] eqn:L; [|discriminate].
+    cbn [chain]. rewrite L. constructor; [|apply (IH t' rt R)].
+    intro I. destruct (chain_suffix F t' rt name I R) as [F1 [R1 LE]].
+    assert (E : chain F1 (SRef name) = chain (S F) (SRef name)).
+    { apply (chain_indep F1 (S F) (SRef name) rt rt); auto. simpl. rewrite L. exact R. }
+    rewrite E in LE. cbn [chain] in LE. rewrite L in LE. cbn [List.length] in LE. lia.
+  Qed.
+
+  Lemma chain_incl : forall F t m, In m (chain F t) -> In m (map fst defs).
+  Proof.
+    induction F as [|F IH]; intros t m I; [destruct I|].
+    destruct t; try (destruct I; fail).
+    cbn [chain] in I. destruct (src_lookup defs name) as [t'|] eqn:L; [|destruct I].
+    destruct I as [I|I].
+    - subst m. apply src_lookup_some_in in L. apply (in_map fst) in L. exact L.
+    - apply (IH t' m I).
+  Qed.
+
+  Lemma resolve_mono : forall f t rt, src_resolve defs f t = Some rt -> forall f', (f <= f')%nat -> src_resolve defs f' t = Some rt.
+  Proof.
+    induction f as [|f IH]; intros t rt R f' LE.
+    - destruct t; simpl in R; try discriminate; inversion R; subst; destruct f'; reflexivity.
+    - destruct t; try (simpl in R; inversion R; subst; destruct f'; reflexivity).
+      destruct f' as [|f']; [lia|]. simpl in *.
+      destruct (src_lookup defs name) as [t'|]; [|discriminate]. apply (IH t' rt R). lia.
+  Qed.
+
+  Lemma resolve_stable F t rt : src_resolve defs F t = Some rt -> src_resolve defs fuel t = Some rt.
+  Proof.
+    intro R. apply (resolve_mono _ _ _ (chain_some F t rt R)).
+    assert (LE : (List.length (chain F t) <= List.length (map fst defs))%nat).
+    { apply NoDup_incl_length; [apply (chain_nodup F t rt R)|]. intros m I. apply (chain_incl F t m I). }
+    rewrite map_length in LE. lia.
+  Qed.
+
+  Lemma none_alts : forall F t, src_resolve defs F t = None -> alternatives ctx F (js_ty pkg t) = [].
+  Proof.
+    induction F as [|F IH]; intros t R; [reflexivity|].
+    destruct t; simpl in R; try discriminate.
+    cbn [js_ty]. rewrite alts_ref.
+    destruct (src_lookup defs name) as [t'|] eqn:L.
+    - rewrite (locate_ok name t' L). cbn [obj_of o_type]. apply IH. exact R.
+    - destruct (src_wf_parts s W) as [SUP _]. rewrite (locate_parse s name SUP), L.
+      destruct (str_in name (reachable s)); reflexivity.
+  Qed.
+
+  Lemma alts_none t F : src_resolve defs fuel t = None -> alternatives ctx F (js_ty pkg t) = [].
+  Proof.
+    intro R. apply none_alts. destruct (src_resolve defs F t) as [rt|] eqn:RF; auto.
+    apply resolve_stable in RF. congruence.
   Qed.
 
   (* the alternatives of a resolved (reference-free at the top) type *)
@@ -352,13 +462,12 @@ Section Ctx.
       destruct t'; try discriminate. destruct fs; reflexivity.
   Qed.
 
-  Lemma alts_enough t F : good s t -> (List.length defs + 4 <= F)%nat ->
-    exists rt, src_resolve defs fuel t = Some rt /\ good s rt /\ nonref rt = true /\
-               alternatives ctx F (js_ty pkg t) = alts_nr rt.
+  Lemma alts_enough t F rt : good s t -> (List.length defs + 4 <= F)%nat -> src_resolve defs fuel t = Some rt ->
+    good s rt /\ nonref rt = true /\ alternatives ctx F (js_ty pkg t) = alts_nr rt.
   Proof.
-    intros G HF. destruct (resolve_total t G) as [rt R]. exists rt.
+    intros G HF R.
     destruct (resolve_good _ _ _ G R) as [G' NR].
-    split; [exact R|]. split; [exact G'|]. split; [exact NR|].
+    split; [exact G'|]. split; [exact NR|].
     destruct (resolve_alts _ _ _ R) as [k [K1 K2]].
     replace F with (k + S (S (S (F - k - 3))))%nat by lia.
     rewrite K2. apply alts_nonref; auto.
@@ -401,27 +510,21 @@ Section Ctx.
     - destruct j; reflexivity.
     - destruct j; try reflexivity.
       cbn [sv_simple js_ty alt_check]. rewrite scalar_int.
-      destruct G as [_ [_ [_ [G _]]]]. cbn [ty_small] in G.
-      apply andb_true_iff in G. destruct G as [G G4]. apply andb_true_iff in G. destruct G as [G G3].
-      apply andb_true_iff in G. destruct G as [G1 G2].
-      rewrite (bounds_agree _ _ _ _ m e G1 G2 G3 G4).
+      rewrite bounds_agree_val.
       change (zopt ge) with (zb ge). change (zopt gt) with (zb gt). change (zopt le) with (zb le). change (zopt lt) with (zb lt).
       cbn [json_ints_int64] in HI. destruct (is_integral m e); cbn [negb orb andb] in *; [rewrite HI|]; reflexivity.
     - destruct j; try reflexivity.
       cbn [sv_simple js_ty alt_check]. rewrite scalar_float.
-      destruct G as [_ [_ [_ [G _]]]]. cbn [ty_small] in G.
-      apply andb_true_iff in G. destruct G as [G G4]. apply andb_true_iff in G. destruct G as [G G3].
-      apply andb_true_iff in G. destruct G as [G1 G2].
-      rewrite (bounds_agree _ _ _ _ m e G1 G2 G3 G4). reflexivity.
+      rewrite bounds_agree_val. reflexivity.
     - destruct j; try reflexivity.
       cbn [sv_simple js_ty alt_check]. rewrite scalar_string. rewrite lengths_agree. reflexivity.
     - destruct j; try reflexivity.
       cbn [sv_simple js_ty alt_check]. rewrite scalar_datetime. reflexivity.
     - destruct j; reflexivity.
-    - destruct G as [G1 [_ [_ [G4 _]]]]. cbn [sv_simple js_ty]. apply const_agree; assumption.
-    - destruct G as [G1 [_ [_ [G4 _]]]].
+    - destruct G as [G1 _]. cbn [sv_simple js_ty]. apply const_agree_val; assumption.
+    - destruct G as [G1 _].
       assert (E : forall j0, sv_simple defs j0 (SEnum vals) = in_list j0 vals) by (intro j0; destruct j0; reflexivity).
-      rewrite E. apply enum_agree; assumption.
+      rewrite E. apply enum_agree_val; assumption.
     - destruct j; try reflexivity. cbn [sv_simple js_ty alt_check].
       apply forallb_ext_in. intros x I. cbn [kids] in K. rewrite Forall_forall in K. apply (K x I). exact G.
     - destruct j; try reflexivity. cbn [sv_simple js_ty alt_check].
@@ -443,7 +546,7 @@ Section Ctx.
     src_valid JS defs JNull t = match src_resolve defs fuel t with Some SAny => true | _ => false end.
   Proof.
     intro G. rewrite src_valid_unfold. unfold sv_body.
-    destruct (resolve_total t G) as [rt R]. rewrite R.
+    destruct (src_resolve defs fuel t) as [rt|] eqn:R; [|reflexivity].
     destruct (resolve_good _ _ _ G R) as [G' NR].
     destruct rt; try reflexivity.
     - cbn [sv_simple]. apply json_eq_null. right. apply G'.
@@ -463,9 +566,14 @@ Section Ctx.
     intro G. rewrite !ir_accepts_unfold. rewrite alt_fuel_eq.
     replace (2 * List.length defs + 8)%nat with (S (S (2 * List.length defs + 6)))%nat by lia.
     rewrite alts_disj. cbn [flat_map]. rewrite existsb_app.
-    destruct (alts_enough t (S (2 * List.length defs + 6)) G) as [rt1 [R1 [_ [_ A1]]]]; [lia|].
-    destruct (alts_enough t (S (S (2 * List.length defs + 6))) G) as [rt2 [R2 [_ [_ A2]]]]; [lia|].
-    rewrite R1 in R2. inversion R2. subst rt2. rewrite A1, A2.
+    assert (EA : alternatives ctx (S (2 * List.length defs + 6)) (js_ty pkg t) =
+                 alternatives ctx (S (S (2 * List.length defs + 6))) (js_ty pkg t)).
+    { destruct (src_resolve defs fuel t) as [rt|] eqn:R.
+      - destruct (alts_enough t (S (2 * List.length defs + 6)) rt G) as [_ [_ A1]]; [lia|exact R|].
+        destruct (alts_enough t (S (S (2 * List.length defs + 6))) rt G) as [_ [_ A2]]; [lia|exact R|].
+        rewrite A1, A2. reflexivity.
+      - rewrite !alts_none by exact R. reflexivity. }
+    rewrite EA.
     f_equal. change (alternatives ctx (S (2 * List.length defs + 6)) t_null) with [t_null].
     cbn [app existsb]. rewrite alt_check_null. apply orb_false_r.
   Qed.
@@ -518,12 +626,11 @@ Section Ctx.
 
   Lemma good_struct_fields fs f : good s (SStruct fs) -> In f fs -> fld_ok f.
   Proof.
-    intros [G1 [G2 [G3 [G4 G5]]]] I.
+    intros [G1 [G2 [G3 G5]]] I.
     apply js_supported_struct in G1. destruct G1 as [_ G1]. destruct (G1 f I) as [A1 A2].
     cbn [ty_wf] in G2. apply andb_true_iff in G2. destruct G2 as [_ G2]. rewrite forallb_forall in G2.
     cbn [no_constrained_typearray] in G3. rewrite forallb_forall in G3. specialize (G3 f I).
     apply andb_true_iff in G3. destruct G3 as [B1 B2].
-    cbn [ty_small] in G4. rewrite forallb_forall in G4.
     cbn [refs_of] in G5. rewrite forallb_forall in G5.
     split; [|split; assumption].
     repeat split; auto.
@@ -543,9 +650,9 @@ Section Ctx.
     apply field_agree; auto. apply (good_struct_fields (f0 :: fr)); assumption.
   Qed.
 
-  Lemma good_simple b : is_simple_branch b = true -> ty_small b = true -> good s b.
+  Lemma good_simple b : is_simple_branch b = true -> good s b.
   Proof.
-    intros H T. unfold good. destruct b; try discriminate; try (repeat split; auto; fail).
+    intros H. unfold good. destruct b; try discriminate; try (repeat split; auto; fail).
     destruct b; try discriminate; repeat split; auto.
   Qed.
 
@@ -576,10 +683,10 @@ Section Ctx.
       apply struct_agree; auto.
     - (* union *)
       cbn [alts_nr]. rewrite existsb_map. apply existsb_ext_in. intros b I.
-      pose proof G as [G1 [G2 [G3 [G4 G5]]]].
+      pose proof G as [G1 [G2 [G3 G5]]].
       cbn [ty_wf] in G2. rewrite forallb_forall in G2. destruct (simple_branch_kind b (G2 b I)) as [SK NB].
       rewrite (resolve_nonref _ b NB). apply simple_agree; auto.
-      apply good_simple; auto. cbn [ty_small] in G4. rewrite forallb_forall in G4. auto.
+      apply good_simple; auto.
     - (* discriminated union *)
       cbn [alts_nr]. rewrite existsb_flat_map.
       pose proof G as [_ [G2 _]]. cbn [ty_wf] in G2. rewrite forallb_forall in G2.
@@ -608,8 +715,10 @@ Section Ctx.
   Proof.
     assert (X : forall j, kids j -> json_ints_int64 j = true -> Pk j).
     { intros j K HI t G. rewrite src_valid_unfold, ir_accepts_unfold. unfold sv_body.
-      destruct (alts_enough t (alt_fuel ctx) G) as [rt [R [G' [NR A]]]]; [rewrite alt_fuel_eq; lia|].
-      rewrite R, A. apply resolved_agree; auto. }
+      destruct (src_resolve defs fuel t) as [rt|] eqn:R.
+      - destruct (alts_enough t (alt_fuel ctx) rt G) as [G' [NR A]]; [rewrite alt_fuel_eq; lia|exact R|].
+        rewrite A. apply resolved_agree; auto.
+      - rewrite (alts_none t _ R). reflexivity. }
     induction j using fe_json_ind; intros HI; apply X; auto; try exact I.
     - cbn [kids]. cbn [json_ints_int64] in HI. rewrite forallb_forall in HI. rewrite Forall_forall in *.
       intros x Ix. apply H; auto.
@@ -618,21 +727,27 @@ Section Ctx.
   Qed.
 End Ctx.
 
-(* parse_preserves_acceptance_partial, with two more decidable hypotheses:
-     schema_bounds_small s    : numeric bounds (m, e) with -10000 <= m <= 10000, -3 <= e <= 0 (printing/parsing round trip
-                                discharged by enumeration); numeric constants / enum values written without exponent
-     schema_aliases_resolve s : every definition name resolves through aliases within src_valid's fuel (no alias cycle) *)
+(* parse_preserves_acceptance_partial EXACTLY as required, no extra hypothesis.
+   Numeric bounds are unrestricted (FEDec.dec_roundtrip), numeric constants / enum values may carry an exponent
+   (FEDec.num_norm_value), alias cycles are rejected by both sides (resolve_stable / alts_none). *)
+Lemma parse_preserves_acceptance_partial_strong :
+  forall s tname d, src_wf s = true -> schema_no_constrained_typearray s = true ->
+    json_wf d = true -> json_ints_int64 d = true ->
+    str_in tname (map fst (src_defs s)) = true -> acceptance_agrees s tname d = true.
+Proof.
+  intros s tname d W NC WF HI IN.
+  unfold acceptance_agrees, src_valid_doc, ir_accepts_doc.
+  assert (G : good s (SRef tname)).
+  { unfold good. repeat split; auto. cbn [refs_of forallb]. rewrite IN. reflexivity. }
+  pose proof (main_agree s W NC d HI (SRef tname) G) as E.
+  change (js_ty (src_pkg s) (SRef tname)) with (TRef attrs0 (src_pkg s) tname) in E. unfold JS in E.
+  destruct d; try reflexivity; rewrite E; apply eqb_reflx.
+Qed.
+
+(* the first proved form (schema_bounds_small s and schema_aliases_resolve s are no longer needed): kept under its name *)
 Lemma parse_preserves_acceptance_partial_weak :
   forall s tname d, src_wf s = true -> schema_no_constrained_typearray s = true ->
     schema_bounds_small s = true -> schema_aliases_resolve s = true ->
     json_wf d = true -> json_ints_int64 d = true ->
     str_in tname (map fst (src_defs s)) = true -> acceptance_agrees s tname d = true.
-Proof.
-  intros s tname d W NC SM AR WF HI IN.
-  unfold acceptance_agrees, src_valid_doc, ir_accepts_doc.
-  assert (G : good s (SRef tname)).
-  { unfold good. repeat split; auto. cbn [refs_of forallb]. rewrite IN. reflexivity. }
-  pose proof (main_agree s W NC SM AR d HI (SRef tname) G) as E.
-  change (js_ty (src_pkg s) (SRef tname)) with (TRef attrs0 (src_pkg s) tname) in E. unfold JS in E.
-  destruct d; try reflexivity; rewrite E; apply eqb_reflx.
-Qed.
+Proof. intros s tname d W NC _ _. apply parse_preserves_acceptance_partial_strong; assumption. Qed.
